@@ -851,6 +851,212 @@ fn detail_programs(tier: Tier) -> Vec<Program> {
     out
 }
 
+// ------------------------------------------------------------------------------------------------ on-disk projects
+
+/// how the real `darklua process` binary is started on a project written to disk
+#[derive(Clone, Debug, Serialize, Deserialize)]
+pub struct DiskRun {
+    /// working directory, relative to the project root ("" or "src")
+    cwd: String,
+    /// entry file as spelled on the command line (`$ABS` = absolute path of the project, `$NAME` = its directory name)
+    entry_arg: String,
+    /// `-c` argument, if any (same placeholders); the configuration file is always `.darklua.json` at the project root
+    config_arg: Option<String>,
+}
+
+fn disk_programs() -> Vec<(Program, DiskRun)> {
+    let mut out = Vec::new();
+    let table = |file: &str, edges: &[(usize, String, Kind)]| module_source(file, Kind::Table, edges, false);
+    // (1) a module reached through a source of the configuration and through relative paths
+    let mode1 = ModeCfg::Path { mfn: "init".to_owned(), sources: vec![("pkg".to_owned(), "./packages".to_owned())] };
+    for (s1, s2) in [("pkg/x", "./packages/x"), ("pkg/x", "pkg/x.lua"), ("./packages/x", "./packages/../packages/x.lua"), ("pkg/x", "./packages/y")] {
+        let files = vec![
+            ("main.lua".to_owned(), module_source("main.lua", Kind::Table, &[(0, s1.to_owned(), Kind::Table), (0, s2.to_owned(), Kind::Table), (0, "pkg/y".to_owned(), Kind::Table)], true)),
+            ("packages/x.lua".to_owned(), table("packages/x.lua", &[(0, "./y".to_owned(), Kind::Table)])),
+            ("packages/y.lua".to_owned(), table("packages/y.lua", &[])),
+        ];
+        for entry_arg in ["main.lua", "./main.lua", "$ABS/main.lua", "../$NAME/main.lua", "packages/../main.lua"] {
+            for config_arg in [None, Some(".darklua.json"), Some("$ABS/.darklua.json"), Some("../$NAME/.darklua.json")] {
+                out.push((
+                    Program {
+                        mode: mode1.clone(),
+                        files: files.clone(),
+                        entry: "main.lua".to_owned(),
+                        excludes: vec![],
+                        externals: vec![],
+                        generator: "readable".to_owned(),
+                        rules: "[]".to_owned(),
+                        expect_error: None,
+                        label: format!("on disk: x required as {:?} and {:?}", s1, s2),
+                    },
+                    DiskRun { cwd: String::new(), entry_arg: entry_arg.to_owned(), config_arg: config_arg.map(|c| c.to_owned()) },
+                ));
+            }
+        }
+    }
+    // (2) darklua started inside a folder of the project: a module reached from inside and from a sibling folder
+    let mode2 = ModeCfg::Path { mfn: "init".to_owned(), sources: vec![] };
+    let files = vec![
+        ("src/main.lua".to_owned(), module_source("src/main.lua", Kind::Table, &[(0, "./config".to_owned(), Kind::Table), (0, "../shared/util".to_owned(), Kind::Table)], true)),
+        ("src/config.lua".to_owned(), table("src/config.lua", &[])),
+        ("shared/util.lua".to_owned(), table("shared/util.lua", &[(0, "../src/config".to_owned(), Kind::Table)])),
+    ];
+    for (cwd, entry_arg, config_arg) in [
+        ("", "src/main.lua", None),
+        ("", "$ABS/src/main.lua", None),
+        ("src", "main.lua", Some("../.darklua.json")),
+        ("src", "./main.lua", Some("$ABS/.darklua.json")),
+        ("src", "../src/main.lua", Some("../.darklua.json")),
+        ("src", "$ABS/src/main.lua", Some("../.darklua.json")),
+        ("shared", "../src/main.lua", Some("../.darklua.json")),
+    ] {
+        out.push((
+            Program {
+                mode: mode2.clone(),
+                files: files.clone(),
+                entry: "src/main.lua".to_owned(),
+                excludes: vec![],
+                externals: vec![],
+                generator: "readable".to_owned(),
+                rules: "[]".to_owned(),
+                expect_error: None,
+                label: "on disk: config required from its folder and from a sibling folder".to_owned(),
+            },
+            DiskRun { cwd: cwd.to_owned(), entry_arg: entry_arg.to_owned(), config_arg: config_arg.map(|c: &str| c.to_owned()) },
+        ));
+    }
+    out
+}
+
+/// Bug model `module identity is the lexical path`: the reference run in which every lexical spelling of a file (relative
+/// to the working directory through each of its ancestors, and absolute) is a module of its own
+fn observe_lexical(p: &Program, run: &DiskRun, abs_root: &str, name: &str, block: &crate::luaref::ast::Block) -> Observation {
+    let subst = |s: &str| s.replace("$ABS", abs_root).replace("$NAME", name);
+    let cwd_real = MPath::parse(abs_root).join(&run.cwd);
+    let aliases = |file: &str| -> Vec<String> {
+        let abs = MPath::parse(abs_root).join(file);
+        let mut v = vec![abs.key()];
+        for k in 0..=cwd_real.segs.len() {
+            let ancestor = &cwd_real.segs[..cwd_real.segs.len() - k];
+            if abs.segs.len() > ancestor.len() && abs.segs[..ancestor.len()] == *ancestor {
+                v.push(MPath { abs: false, ups: k, segs: abs.segs[ancestor.len()..].to_vec() }.key());
+            }
+        }
+        v
+    };
+    let mut it = Interp::new(Mode::Luau);
+    let fuel = 400_000;
+    it.fuel = fuel;
+    let mut files: BTreeSet<String> = BTreeSet::new();
+    for (path, content) in &p.files {
+        for a in aliases(path) {
+            files.insert(a.clone());
+            if *path != p.entry {
+                let m = module_value(&mut it, path, content);
+                it.modules.insert(a, m);
+            }
+        }
+    }
+    let config_dir = match &run.config_arg {
+        None => String::new(),
+        Some(c) => {
+            let d = MPath::parse(&subst(c)).parent().key();
+            if d == "." { String::new() } else { d }
+        }
+    };
+    let env = Env { mode: p.mode.clone(), config_dir, luaurc: vec![] };
+    let entry = MPath::parse(&subst(&run.entry_arg)).key();
+    let entry2 = entry.clone();
+    it.resolver = Some(Box::new(move |from: &str, arg: &str| {
+        let from = if from == "main" { entry2.as_str() } else { from };
+        resolve(&env, arg, from, &files).map_err(|e| format!("{:?}", e))
+    }));
+    it.current_file = Rc::from(entry.as_str());
+    let r = it.run_chunk(block, &entry);
+    let outcome = match r {
+        Ok(vals) => Outcome::Returned(vals.iter().map(|v| it.serialize(v)).collect::<Vec<_>>().join(", ")),
+        Err(Stop::Error(v)) => Outcome::Error(it.serialize(&v)),
+        Err(Stop::Fuel) => Outcome::NoTermination,
+        Err(Stop::Poison(m)) => Outcome::Poison(m),
+    };
+    Observation { outcome, log: std::mem::take(&mut it.log), fuel_used: fuel - it.fuel }
+}
+
+/// writes the project to a scratch directory, runs the real binary there and compares the bundle with the reference run
+pub fn eval_disk(p: &Program, run: &DiskRun, binary: &std::path::Path, slot: usize) -> (Option<String>, Option<String>) {
+    let name = format!("proj{}", slot);
+    let base = std::path::PathBuf::from(crate::common::VERIF_DIR).join("target").join("tmp").join(format!("c05-{}-{}", std::process::id(), slot));
+    let root = base.join(&name);
+    let _ = std::fs::remove_dir_all(&base);
+    let cleanup = |r: (Option<String>, Option<String>)| {
+        let _ = std::fs::remove_dir_all(&base);
+        r
+    };
+    for (k, v) in &p.files {
+        let path = root.join(k);
+        if let Some(parent) = path.parent() {
+            let _ = std::fs::create_dir_all(parent);
+        }
+        if std::fs::write(&path, v).is_err() {
+            return cleanup((Some(format!("MACHINERY: cannot write {}", path.display())), None));
+        }
+    }
+    let config = format!("{{generator: '{}', rules: {}, bundle: {{require_mode: {}}}}}", p.generator, p.rules, p.mode.to_json5());
+    let _ = std::fs::write(root.join(".darklua.json"), config);
+    let abs_root = root.to_string_lossy().to_string();
+    let subst = |s: &str| s.replace("$ABS", &abs_root).replace("$NAME", &name);
+    let entry_text = &p.files.iter().find(|(k, _)| *k == p.entry).expect("entry").1;
+    let parsed = match parser::parse(entry_text.as_bytes(), Mode::Luau) {
+        Ok(b) => b,
+        Err(e) => return cleanup((Some(format!("MACHINERY: entry does not parse: {}", e)), None)),
+    };
+    let reference = observe_with(p, &parsed.block, true);
+    if !reference.is_ok() {
+        return cleanup((Some(format!("MACHINERY: reference run is not error free: {}", reference.render())), None));
+    }
+    let out_file = base.join("out.lua");
+    let mut cmd = std::process::Command::new(binary);
+    cmd.current_dir(root.join(&run.cwd)).arg("process");
+    if let Some(c) = &run.config_arg {
+        cmd.arg("-c").arg(subst(c));
+    }
+    cmd.arg(subst(&run.entry_arg)).arg(&out_file);
+    let output = match cmd.output() {
+        Ok(o) => o,
+        Err(e) => return cleanup((Some(format!("MACHINERY: cannot run the binary: {}", e)), None)),
+    };
+    let describe_run = format!("cwd=<project>/{} darklua process {}{} <out>", run.cwd, run.config_arg.as_ref().map(|c| format!("-c {} ", c)).unwrap_or_default(), run.entry_arg);
+    if !output.status.success() {
+        return cleanup((Some(format!("bundling failed ({}): {}", describe_run, String::from_utf8_lossy(&output.stderr).trim())), None));
+    }
+    let text = match std::fs::read_to_string(&out_file) {
+        Ok(t) => t,
+        Err(_) => return cleanup((Some(format!("no output was written ({})", describe_run)), None)),
+    };
+    let bundle = match parser::parse(text.as_bytes(), Mode::Luau) {
+        Ok(b) => b,
+        Err(e) => return cleanup((Some(format!("the bundle does not parse ({}): {}\n{}", describe_run, e, text)), None)),
+    };
+    let got = observe_with(p, &bundle.block, false);
+    if got.same_behaviour(&reference) {
+        return cleanup((None, None));
+    }
+    // attribute to the known finding only when the bundle behaves exactly like the lexical-identity model
+    let lexical = observe_lexical(p, run, &abs_root, &name, &parsed.block);
+    let finding = if lexical.is_ok() && got.same_behaviour(&lexical) { Some("same-file-under-two-lexical-paths-is-bundled-twice".to_owned()) } else { None };
+    cleanup((
+        Some(format!(
+            "the bundle behaves differently ({})\n    modules required normally: {}\n    bundle:                    {}\n    lexical-identity model:    {}\n--- bundle\n{}",
+            describe_run,
+            reference.render(),
+            got.render(),
+            lexical.render(),
+            text
+        )),
+        finding,
+    ))
+}
+
 pub fn run(tier: Tier) -> Report {
     let mut report = Report::new("C05", "exploration", tier);
     report.rule = "(A) EVERY acyclic graph over an entry and three modules (63 edge sets with a non-empty entry) x value kind of each module (table with state, function with state, nil, false, string, \
@@ -908,6 +1114,29 @@ pub fn run(tier: Tier) -> Report {
             report.violations.push(Violation { finding: None, summary: format!("{}\n--- {}", why, describe(p)), replay: json!({"kind": "bundle", "program": serde_json::to_value(p).unwrap_or_default()}) });
         }
     }
+    // on-disk projects through the real binary
+    let disk = disk_programs();
+    match crate::dl::darklua_binary() {
+        Err(e) => crate::common::machinery_error(&format!("C05: {}", e)),
+        Ok(binary) => {
+            let results: Vec<(Option<String>, Option<String>)> = disk.par_iter().enumerate().map(|(i, (p, run))| eval_disk(p, run, &binary, i)).collect();
+            for ((p, run), (violation, finding)) in disk.iter().zip(results) {
+                report.evaluations += 1;
+                report.distinct_nontrivial += 1;
+                if let Some(why) = violation {
+                    if why.starts_with("MACHINERY") {
+                        crate::common::machinery_error(&format!("C05 on-disk family: {}", why));
+                    }
+                    report.violations.push(Violation {
+                        finding,
+                        summary: format!("{}\n--- {}", why, describe(p)),
+                        replay: json!({"kind": "disk bundle", "program": serde_json::to_value(p).unwrap_or_default(), "run": serde_json::to_value(run).unwrap_or_default()}),
+                    });
+                }
+            }
+        }
+    }
+    report.set("on_disk_runs", disk.len() as u64);
     if let Some(f) = first_reference_failure {
         crate::common::machinery_error(&format!("C05: {} generated programs do not run under the reference `require` (the generator is wrong): {}", reference_failed, f));
     }
